@@ -251,6 +251,8 @@ pub struct NetSim<P: Protocol> {
     pub lost_unknown_dst: u64,
     /// datagrams addressed to something that is not a simulated node (scripted peers read them here)
     pub stray: Vec<Datagram>,
+    /// set when one settle() needed more than 20000 deliveries (datagram storm)
+    pub storm: bool,
 }
 
 pub fn sim_addr(n: usize) -> SocketAddr {
@@ -282,6 +284,7 @@ impl<P: Protocol> NetSim<P> {
             delivered: 0,
             lost_unknown_dst: 0,
             stray: vec![],
+            storm: false,
         }
     }
 
@@ -374,7 +377,10 @@ impl<P: Protocol> NetSim<P> {
         while let Some(d) = self.inflight.pop_front() {
             self.deliver(d);
             guard += 1;
-            if guard > 200_000 {
+            if guard > 20_000 {
+                // datagrams keep causing datagrams: a loop in the (rewritten) network
+                self.storm = true;
+                self.inflight.clear();
                 break;
             }
         }
